@@ -56,7 +56,48 @@ inductive Expr
   `a` is the result, or the exception of `a` propagates again; if `b` fails, its exception
   propagates instead -/
   | tryFin (a : Expr) (b : Expr)
+  /-- a call spelled with keyword arguments and / or relying on default values of the callee:
+  `c(e₁, …, e_npos, a_{kws₁} = e_{npos+1}, …)`.  `args` are ALL argument expressions in source
+  order (Python evaluates them in that order, whatever the parameters they are for), the first
+  `npos` positional, the others for the parameters (by index) `kws`; an index that is not a
+  parameter of the callee stands for a keyword the callee does not have.  `dflt` are the default
+  values of the LAST `dflt.length` parameters of the callee (written in by the driver's reader from
+  the signature the program declares for `c`).  The element that is called is the one `bindKey`
+  computes – `inspect.Signature.bind` + `apply_defaults`, i.e. `node._bind_args`. -/
+  | callK (c : CellId) (args : List Expr) (npos : Nat) (kws : List Nat) (dflt : List Val)
 deriving Repr, Inhabited
+
+/-! ### Argument binding (`modelx/core/node.py` `_bind_args` for positional-or-keyword parameters)
+
+The same rule as `MxModel.ItemSpace.bindArgs` (theorems `bind_iff`, `bind_canonical` of C07), over
+the values of this layer and with parameters named by their index. -/
+
+def distinctNats : List Nat → Bool
+  | [] => true
+  | x :: xs => !xs.contains x && distinctNats xs
+
+/-- the value parameter `i` gets: the positional argument, else the keyword argument of its name, else
+its default (parameters `a - dflt.length … a - 1` have one); `none` = a missing argument -/
+def bindSlot (a : Nat) (dflt pos : List Val) (kw : List (Nat × Val)) (i : Nat) : Option Val :=
+  if i < pos.length then pos[i]?
+  else match kw.find? (fun e => e.1 == i) with
+    | some e => some e.2
+    | none => if a ≤ i + dflt.length then dflt[i + dflt.length - a]? else none
+
+def bindSlots (a : Nat) (dflt pos : List Val) (kw : List (Nat × Val)) : List Nat → Option Key
+  | [] => some []
+  | i :: is => match bindSlot a dflt pos kw i, bindSlots a dflt pos kw is with
+    | some v, some vs => some (v :: vs)
+    | _, _ => none
+
+/-- the key (one value per parameter) a spelling denotes, or `none` where Python raises `TypeError`:
+too many positional arguments, a keyword for a parameter that also has a positional argument, a
+keyword that names no parameter, a repeated keyword, a parameter left without a value -/
+def bindKey (a : Nat) (dflt pos : List Val) (kw : List (Nat × Val)) : Option Key :=
+  if a < pos.length then none
+  else if !distinctNats (kw.map (·.1)) then none
+  else if kw.any (fun e => e.1 < pos.length || a ≤ e.1) then none
+  else bindSlots a dflt pos kw (List.range a)
 
 def arith (op : Int → Int → Int) (a b : Val) (k : Val → Prog) (h : Bool → Err → Prog) : Prog :=
   match a, b with
@@ -106,6 +147,15 @@ def compile (ar : CellId → Option Nat) (params : List Val) : Expr → (Val →
       if c.catches e then compile ar params b (fun _ => h isNew e) h else h isNew e)
   | .tryFin a b, k, h => compile ar params a (fun v => compile ar params b (fun _ => k v) h)
       (fun isNew e => compile ar params b (fun _ => h isNew e) h)
+  | .callK c args npos kws dflt, k, h =>
+    -- as `.call`: the callee is loaded, the arguments are evaluated in source order, then they are
+    -- bound (`get_node`); a spelling that does not bind is a TypeError in the caller
+    match ar c with
+    | none => h true (.user kName)
+    | some a => compileArgs ar params args (fun vs =>
+        match bindKey a dflt (vs.take npos) (kws.zip (vs.drop npos)) with
+        | some key => .call (c, key) (fun r => match r with | .ok v => k v | .err e => h false e)
+        | none => h true (.user kType)) h
 def compileArgs (ar : CellId → Option Nat) (params : List Val) : List Expr → (List Val → Prog) → (Bool → Err → Prog) → Prog
   | [], k, _ => k []
   | e :: es, k, h => compile ar params e (fun v => compileArgs ar params es (fun vs => k (v :: vs)) h) h
@@ -131,6 +181,7 @@ def scopeExpr (visible : RefId → Bool) : Expr → Expr
   | .try_ a c b => .try_ (scopeExpr visible a) c (scopeExpr visible b)
   | .tryRe a c b => .tryRe (scopeExpr visible a) c (scopeExpr visible b)
   | .tryFin a b => .tryFin (scopeExpr visible a) (scopeExpr visible b)
+  | .callK c args npos kws dflt => .callK c (scopeExprs visible args) npos kws dflt
 def scopeExprs (visible : RefId → Bool) : List Expr → List Expr
   | [] => []
   | e :: es => scopeExpr visible e :: scopeExprs visible es
@@ -163,6 +214,11 @@ def deadExpr (dead : CellId → Option Bool) : Expr → Expr
   | .try_ a c b => .try_ (deadExpr dead a) c (deadExpr dead b)
   | .tryRe a c b => .tryRe (deadExpr dead a) c (deadExpr dead b)
   | .tryFin a b => .tryFin (deadExpr dead a) (deadExpr dead b)
+  | .callK c args npos kws dflt =>
+    match dead c with
+    | none => .callK c (deadExprs dead args) npos kws dflt
+    | some false => .call c []
+    | some true => .try_ (.call c []) (.user kName) (.raise kAttr)
 def deadExprs (dead : CellId → Option Bool) : List Expr → List Expr
   | [] => []
   | e :: es => deadExpr dead e :: deadExprs dead es
@@ -190,6 +246,7 @@ def tryFree : Expr → Bool
   | .try_ _ _ _ => false
   | .tryRe _ _ _ => false
   | .tryFin _ _ => false
+  | .callK _ args _ _ _ => tryFreeList args
 def tryFreeList : List Expr → Bool
   | [] => true
   | e :: es => tryFree e && tryFreeList es
@@ -212,6 +269,7 @@ def blocksSimple : Expr → Bool
   | .try_ a _ b => blocksSimple a && blocksSimple b
   | .tryRe a _ b => blocksSimple a && tryFree b
   | .tryFin a b => blocksSimple a && tryFree b
+  | .callK _ args _ _ _ => blocksSimpleList args
 def blocksSimpleList : List Expr → Bool
   | [] => true
   | e :: es => blocksSimple e && blocksSimpleList es
